@@ -27,7 +27,7 @@ RULE = ("case = buffer size + drawing program (as for C03) + a flush, either `fl
         "distinct = distinct (op kinds, shape of the operation log).")
 ASSUMPTIONS = ["the terminal advances by the library's own width function (stated in the property); modelled after src/mockterm.c",
                "terminal at least as large as the buffer; no int overflow",
-               "texts over printable ASCII, U+00A1-00FF, U+0300-036F (width 0), U+FF01-FF60 (width 2); pens with fg, bg, bold, underline",
+               "texts are well-formed UTF-8 over any code points 1..0x1FFFFF (width function = the library's own, property C07); pens with fg, bg, bold, underline",
                "line styles 1..3"]
 TRUSTED = ["models coq/RBDefs.v, coq/RBFlushDefs.v hand-written after src/renderbuffer.c and src/mockterm.c; "
            "specification coq/RBFlushSpec.v (cell-wise expectation, exactly-once count) and coq/RBGlyphs.v "
@@ -93,6 +93,14 @@ def gen(tier, seed, info):
     info["exhaustive_scope"] = ("all 255 line masks on a 3x3 buffer; all programs of 1..3 ops over a %d-op alphabet on a 2x6 buffer, "
                                 "each flushed" % len(ALPHABET))
     info["exhaustive_cases"] = n + m
+    # (3b) every boundary of the library's width tables, flushed whole and cut inside / next to it
+    nwb = 0
+    for w in (0, 1, 2):
+        for i, c in enumerate(rbgen.EXOTIC[w]):
+            nwb += 1
+            kind = ["fl 1 8 0 0 -", "flm 1 8 0 3 f2", "flx 1 8"][i % 3]
+            yield rbgen.case_line(1, 8, ["txa 0 0 41.%x.42.%x.43" % (c, c), "cha 0 %d 78" % (1 + i % 3), kind, "D"])
+    info["width_table_boundary_cases"] = nwb
     # (4) width mixes cut at every column
     texts = [[0xff21, 0x62, 0x63, 0x64], [0x61, 0xff21, 0x62], [0x61, 0x301, 0xff22, 0x300, 0x63], [0xff21, 0xff22, 0xff01],
              [0x61, 0x62, 0xff21], [0x301, 0x61, 0xff21, 0x301], [0xe9, 0xff21, 0xe9], [0x41, 0x42, 0x43], [0xff21]]
